@@ -553,6 +553,21 @@ impl Node {
             }
         }
 
+        //a version that has been deleted locally must not be fetched again from a peer that has not seen the deletion yet
+        let mut deletion_stmt =
+            conn.prepare_cached("SELECT max(mdate) FROM _node_deletion_log WHERE id = ?")?;
+        let mut deleted = Vec::new();
+        for node_id in node_ids.iter() {
+            let deleted_version: Option<i64> =
+                deletion_stmt.query_row([&node_id.id], |row| row.get(0))?;
+            if let Some(mdate) = deleted_version {
+                if node_id.mdate <= mdate {
+                    deleted.push(node_id.id);
+                }
+            }
+        }
+        node_ids.retain(|node_id| !deleted.contains(&node_id.id));
+
         for node_id in node_ids.drain() {
             let node_to_insert = NodeToInsert {
                 id: node_id.id,
